@@ -209,7 +209,10 @@ class Paths:
                     ptr = po._local(pl["l"], proj[:d], k, j)
                     if ptr_root(ptr)[0] not in ("param", "upvar", "unknown", "loop", "callind"):
                         continue  # store into a local through a local reference: seen by the origin trees
-                    lv = po._apply(("deref", ptr), proj[d + 1:])
+                    if fn.kind == "closure" and pl["l"] == 1:
+                        lv = po._entry(1, proj)   # a captured variable: ('upvar', k, name) with the rest of the projection
+                    else:
+                        lv = po._apply(("deref", ptr), proj[d + 1:])
                     ev.append(("write", res(lv, k, j), res(po._rvalue(s["rv"], k, j), k, j)))
             t = blk["t"]
             if not t:
